@@ -97,6 +97,7 @@ type FnVC struct {
 	heapSort     map[string]string
 	facts        []string
 	lemmaUsed    bool
+	hintSeen     map[int]bool
 	sliceSt      map[string]*State // slice values obtained through old(...): the state in which their elements are read
 	factBlk      []int // block in which each fact was generated (-1: none)
 	ancCache     map[int]map[int]bool
